@@ -669,9 +669,20 @@ theorem inv_pushRejected (f : Int → Outcome) (s : St) (h : Inv f s) : Inv f (p
     show t.id ≤ (if s.th.isOpen then s.th.jobId + 1 else s.th.jobId)
     split <;> omega
 
+theorem inv_refused (f : Int → Outcome) (s : St) (n : Nat) (h : Inv f s) : Inv f { s with refused := n } :=
+  ⟨h.jobnn, h.pos, h.nodup, h.pend, h.cbdone, h.onceQ, h.onceR, h.onceD, h.storingOpen, h.closedW, h.closedR, h.noraise,
+    h.caller⟩
+
+theorem inv_pushQueuedRaised (f : Int → Outcome) (s : St) (h : Inv f s) : Inv f (pushQueuedRaised s) := by
+  unfold pushQueuedRaised
+  split
+  · exact inv_refused f _ _ (inv_pushBegin f s h)
+  · exact inv_pushBegin f s h
+
 theorem inv_step (f : Int → Outcome) (s : St) (st : Step) (h : Inv f s) : Inv f (step f s st) := by
   cases st with
   | push => exact inv_push f s h
+  | pushQueuedRaised => exact inv_pushQueuedRaised f s h
   | pushRejected => exact inv_pushRejected f s h
   | pushBegin => exact inv_pushBegin f s h
   | pushStore id => exact inv_pushStore f s id h
@@ -790,6 +801,22 @@ theorem erase_step (f g : Int → Outcome) (s : St) (st : Step) :
         simp only [erase] at hc'
         simp only [hc, hc', if_false]
         simp [List.map_map, Function.comp, eraseTask]
+  | pushQueuedRaised =>
+    show erase (pushQueuedRaised s) = erase (pushQueuedRaised (erase s))
+    have hb : erase (pushBegin s) = erase (pushBegin (erase s)) := by
+      cases ho : s.th.isOpen with
+      | false =>
+        rw [pushBegin_closed s ho, pushBegin_closed (erase s) ho]; simp [erase, List.map_map, Function.comp, eraseTask]
+      | true =>
+        rw [pushBegin_open s ho, pushBegin_open (erase s) ho]; simp [erase, List.map_map, Function.comp, eraseTask]
+    have ho' : (erase s).th.isOpen = s.th.isOpen := rfl
+    unfold pushQueuedRaised
+    rw [ho']
+    split
+    · have h1 : ∀ x : St, erase { x with refused := x.refused + 1 } = { erase x with refused := (erase x).refused + 1 } :=
+        fun _ => rfl
+      rw [h1, h1, hb]
+    · exact hb
   | pushBegin =>
     show erase (pushBegin s) = erase (pushBegin (erase s))
     cases ho : s.th.isOpen with
